@@ -792,3 +792,147 @@ PROPS["C10"] = dict(
             "thorough": "+ (zones, zones), (zones, intervals x zones), (intervals, octagons)"},
     outside=["call graphs outside the family", "array and reference arguments", "summaries of functions in recursive components (the analyzer computes none)"],
     assumptions=E2_ASSUME)
+
+# ---------------------------------------------------------------- C15: region / reference domain
+RGN_CORE = [
+    "init.0,make.0.0,st.0.0,ld.0.0",
+    "init.0,make.0.0,st.0.0,idx.0.4,geps.0.1.0.0,st.1.0,ld.0.0",                       # offset that may be zero
+    "init.0,make.0.0,st.0.0,gepc.0.1.0.0.0,make.0.0,st.0.0,ld.1.0",                    # re-allocation with a live alias
+    "init.0,make.0.0,st.0.0,gepc.0.0.0.0.4,st.0.0,gepc.0.0.0.0.-4,ld.0.0",             # p := p + 4 ... p := p - 4
+    "init.0,make.0.0,make.1.0,st.0.0,st.1.0,ld.0.0,q.0,q.1",
+    "init.0,init.2,make.0.0,st.0.0,make.1.2,str.1.0,ldr.1.2,ld.2.0,q.2",               # reference stored in a region
+    "init.0,init.2,make.0.0,st.0.0,make.1.2,str.1.0,make.0.0,st.0.0,ldr.1.2,ld.2.0",
+    "init.0,make.0.0,st.0.0,cpy,st.0.0,join,ld.0.0",
+    "init.0,make.0.0,null.1,cpy,gepc.0.1.0.0.0,join,q.1,asm.nn.1,st.1.0,ld.0.0",        # null or non-null after a join
+    "init.0,init.1,make.0.0,st.0.0,rcopy.1.0,gepc.0.1.0.1.0,ld.1.1",                   # region copy
+    "init.0,make.0.0,st.0.0,r2i.0.0,q.0",
+    "init.0,make.0.0,gepc.0.1.0.0.4,st.0.0,st.1.0,asm.ne.0.1,ld.0.0",
+    "init.0,make.0.0,st.0.0,free.0.0,q.0,ld.0.0",
+    "init.0,make.0.0,st.0.0,cpy,make.1.0,st.1.0,join,st.0.0,ld.1.0",
+    "init.0,make.0.0,st.0.0,cpy,make.1.0,st.1.0,wid,st.0.0,ld.1.0",
+    "init.0,idx.16.32,i2r.0.0,st.0.0,idx.16.32,i2r.1.0,st.1.0,ld.0.0",                 # references made from integers
+    "init.0,init.1,make.0.0,gepc.0.1.0.1.0,st.0.0,st.1.1,ld.0.0,ld.1.1",               # same address, two regions
+    "init.0,null.0,make.0.0,q.0,asm.nn.0,st.0.0,r2i.0.0,ld.0.0",                       # null, then allocated
+    "init.0,make.0.0,stv.0.0,idx.-4.4,geps.0.1.0.0,stv.1.0,ld.0.0,ld.1.0",
+    "init.0,init.1,make.0.0,make.1.1,st.0.0,st.1.1,cpy,gepc.1.0.1.0.0,st.0.0,join,ld.0.0",  # p points into R0 or (after the join) into R1's object
+]
+RGN_PARAMS = [{}, {"deref": "true"}, {"allocs": "false", "dealloc": "false", "tags": "false"}, {"skipunk": "false", "deref": "true"}]
+RGN_BASE = {1: "interval_domain", 2: "split_dbm_domain (zones)", 3: "flat_boolean_numerical_domain<interval_domain>", 4: "sign_constant_domain"}
+
+
+def rgn_histories(rng, n):
+    """well-formed histories: regions are initialised first, references are defined before use and are used
+    with the region they point into, every history ends with a load from a region that was stored to"""
+    out = []
+    for _ in range(n):
+        s = ["init.0", "init.1"]
+        use_rr = rng.random() < 0.35
+        if use_rr:
+            s.append("init.2")
+        reg = {}      # ref -> region it points into (None: null)
+        stored = set()
+        has_idx = False
+        rr_stored = None   # (holder ref, region of the stored ref)
+        k = rng.randint(4, 9)
+        for _ in range(k):
+            ops = ["make", "make", "idx"]
+            live = [p for p in reg if reg[p] is not None and reg[p] != 2]
+            if live:
+                ops += ["gepc", "gepc", "st", "st", "stv", "q", "r2i", "free", "cpy", "join", "wid", "asm"]
+                if has_idx:
+                    ops += ["geps", "geps", "i2r"]
+                if [p for p in live if reg[p] in stored]:
+                    ops += ["ld", "ld"]
+                if use_rr:
+                    ops += ["str"]
+                if rr_stored:
+                    ops += ["ldr"]
+            if len(reg) < 3:
+                ops += ["null"]
+            o = rng.choice(ops)
+            if o == "make":
+                p = rng.randrange(3); g = rng.choice([0, 0, 1])
+                s.append("make.%d.%d" % (p, g)); reg[p] = g
+            elif o == "idx":
+                lo = rng.choice([0, 0, 1, 4, -4]); hi = lo + rng.choice([0, 1, 4, 8])
+                s.append("idx.%d.%d" % (lo, hi)); has_idx = True
+            elif o in ("gepc", "geps"):
+                p = rng.choice(live); q = rng.randrange(3)
+                g2 = reg[p] if rng.random() < 0.8 else 1 - reg[p]
+                if o == "gepc":
+                    s.append("gepc.%d.%d.%d.%d.%d" % (p, q, reg[p], g2, rng.choice([0, 0, 4, 8, -4])))
+                else:
+                    s.append("geps.%d.%d.%d.%d" % (p, q, reg[p], g2))
+                reg[q] = g2
+            elif o in ("st", "stv"):
+                p = rng.choice(live); s.append("%s.%d.%d" % (o, p, reg[p])); stored.add(reg[p])
+            elif o == "ld":
+                p = rng.choice([p for p in live if reg[p] in stored]); s.append("ld.%d.%d" % (p, reg[p]))
+            elif o == "q":
+                s.append("q.%d" % rng.choice(list(reg)))
+            elif o == "r2i":
+                p = rng.choice(live); s.append("r2i.%d.%d" % (p, reg[p]))
+            elif o == "i2r":
+                p = rng.randrange(3); g = rng.choice([0, 1]); s.append("i2r.%d.%d" % (p, g)); reg[p] = g
+            elif o == "free":
+                p = rng.choice(live); s.append("free.%d.%d" % (p, reg[p]))
+            elif o == "null":
+                p = rng.choice([x for x in range(3) if x not in reg]); s.append("null.%d" % p); reg[p] = None
+            elif o == "asm":
+                p = rng.choice(live)
+                others = [x for x in live if x != p]
+                kind = rng.choice(["nn", "eq", "ne"]) if others else "nn"
+                s.append("asm.nn.%d" % p if kind == "nn" else "asm.%s.%d.%d" % (kind, p, rng.choice(others)))
+            elif o == "str":
+                holders = [p for p in reg if reg[p] == 2]
+                if not holders:
+                    h = rng.choice([x for x in range(3)])
+                    if h in live and len(live) == 1:
+                        continue
+                    s.append("make.%d.2" % h); reg[h] = 2
+                    live = [p for p in reg if reg[p] is not None and reg[p] != 2]
+                    if not live:
+                        continue
+                    holders = [h]
+                h = rng.choice(holders); p = rng.choice(live)
+                s.append("str.%d.%d" % (h, p)); rr_stored = (h, reg[p])
+            elif o == "ldr":
+                h, g = rr_stored
+                if reg.get(h) != 2:
+                    continue
+                q = rng.choice([x for x in range(3) if x != h]); s.append("ldr.%d.%d" % (h, q)); reg[q] = g
+            elif o in ("cpy", "join", "wid"):
+                if o == "cpy" or "cpy" in s:
+                    s.append(o)
+        cand = [p for p in reg if reg[p] is not None and reg[p] != 2 and reg[p] in stored]
+        if not cand:
+            continue
+        p = rng.choice(cand)
+        s.append("ld.%d.%d" % (p, reg[p]))
+        out.append(",".join(s))
+    return out
+
+
+def c15_jobs(tier, seed):
+    J = []
+    rng = random.Random(150 + seed)
+    hist = RGN_CORE + rgn_histories(rng, 40 if tier == "quick" else 600)
+    for hi, s in enumerate(hist):
+        gen = hi >= len(RGN_CORE)
+        for rb in ((1, 2, 3, 4) if tier != "quick" else ((1, 2) if not gen else (1 + (hi % 4),))):
+            plist = RGN_PARAMS if (tier != "quick" or (not gen and rb == 1)) else [RGN_PARAMS[(hi + rb) % len(RGN_PARAMS)]]
+            for p in plist:
+                args = dict(p)
+                args["seq"] = s
+                J.append(Job("rgn", args, defines=("RB=%d" % rb,), budget=200, what="region_domain<%s>, params %s: %s" % (RGN_BASE[rb], p or "default", s), witnesses=1, soft=gen, allow_vacuous=gen))
+    return J
+
+
+PROPS["C15"] = dict(
+    jobs=c15_jobs,
+    explanation="region_domain<Params> over four base domains is driven by histories of region_init, ref_make, ref_gep (constant and symbolic offsets, within and across regions), ref_store / ref_load of integers and of references, ref_free, ref_assume, ref_to_int / int_to_ref, region_copy, join and widening, next to a concrete memory "
+                "(per region the list of (address, value) writes; objects are symbolic, pairwise distant, non-null base addresses; a reference is an address plus its allocation site); z3 decides after every load that the value read from a previously written cell is in at(lhs), after every reference load / query that a definite is_null_ref answer is right and that a reported set of allocation sites contains the actual one, "
+                "that ref_to_int covers the address, and that no operation turns a reachable state into bottom - for all stored values, base addresses, offsets and join choices.",
+    bounds={"quick": "3 reference variables, 2 integer regions + 1 region of references, 20 curated + 40 generated histories (<= 12 operations), base domains intervals / zones / flat Boolean x intervals / sign-constant, 4 region_domain_params settings on the curated histories (one setting otherwise), offsets in [-4, 32]", "thorough": "600 generated histories, every base domain and parameter setting"},
+    outside=["reads of never-written cells (the path ends)", "region_cast and unknown-typed regions", "select_ref, Boolean and array regions", "tag queries (get_tags) and the deallocation intrinsics", "objects closer than 64 bytes / offsets beyond 32 (out-of-bounds pointer arithmetic)"],
+    assumptions=E2_ASSUME + ["concrete memory model: word-level addressing, a store through reference p in region R writes cell (R, address(p)); distinct allocations have distinct non-null addresses"])
